@@ -192,7 +192,7 @@ def register(reg):
             c2.k = saved
 
     reg.add(Contract(
-        f"{S}._find_dependencies", props=["C01.1", "C02.1", "C13.L"],
+        f"{S}._find_dependencies", props=["C01.1", "C02.1", "C13.L", "C04.3"],
         params={"component": TRef("IComponent"), "output_owners": OwnersT, "target_time": Time},
         result=DepsT, requires=fd_pre, ensures=fd_post, modifies=lambda ctx: [], axioms=walk_axioms,
         loops={1: dict(invariant=outer_inv, locals={"deps": DepsT, "inp": TRef(None), "local_time": Time, "delayed": Bool, "buffered": Bool}),
@@ -480,7 +480,7 @@ def register_validation(reg):
                    ctx.local("static").e == static_of(ctx, x0))
 
     reg.add(Contract(
-        f"{S}._check_input_connected", props=["C19.1"], params={"comp": TRef("IComponent"), "inp": TRef("IInput")},
+        f"{S}._check_input_connected", props=["C19.1", "C05.4"], params={"comp": TRef("IComponent"), "inp": TRef("IInput")},
         requires=lambda ctx: And(isa("IInput", ctx.inp.e),
                                  Implies(CONN(ctx.inp.e), Or(isa("IOutput", ROOT2(ctx.inp.e)), isa("IInput", ROOT2(ctx.inp.e))))),
         ensures=lambda ctx, r: Not(cic_bad(ctx)), modifies=lambda ctx: [], axioms=conn_axioms,
@@ -545,7 +545,7 @@ def register_validation(reg):
         return dead_link(ctx.old, ctx.inp.e)
 
     reg.add(Contract(
-        f"{S}._check_dead_links", props=["C19.2"], params={"comp": TRef("IComponent"), "inp": TRef("IInput")},
+        f"{S}._check_dead_links", props=["C19.2", "C05.4"], params={"comp": TRef("IComponent"), "inp": TRef("IInput")},
         # only this input's chain has to be connected (_check_input_connected ran before): no global assumption
         requires=lambda ctx: And(isa("IInput", ctx.inp.e), CONN(ctx.inp.e), ctx.inp.e > 0),
         modifies=lambda ctx: [], axioms=lambda ctx: elem_axioms(ctx) + conn_axioms(ctx),
@@ -805,7 +805,9 @@ def register_run2(reg):
 
 _MON = {"name": "run-monitor", "script": "replay/drivers/seq_sched.py", "args": ["--json"], "timeout": 3000}
 BOUNDED = {p: [_MON] for p in ("C01", "C02", "C03", "C04", "C05")}
-BOUNDED["C19"] = [{"name": "validation-topologies", "script": "replay/drivers/bnd_validate.py", "args": ["--json"], "timeout": 1200}]
+_VAL = {"name": "validation-topologies", "script": "replay/drivers/bnd_validate.py", "args": ["--json"], "timeout": 1200}
+BOUNDED["C19"] = [_VAL]
+BOUNDED["C05"] = [_MON, _VAL]     # the validation outcome must not depend on the order of linking / listing
 REPLAY = {
     f"{S}._check_input_connected": "bnd_validate.py", f"{S}._check_dead_links": "bnd_validate.py", f"{S}._check_branching": "bnd_validate.py",
     f"{S}._check_missing_components": "bnd_validate.py", f"{S}._collect_inputs_outputs": "bnd_validate.py",
@@ -834,6 +836,7 @@ def register_connect(reg):
 
     lim = lambda ctx, o: ctx.get(o, "_mem_limit")
     loc = lambda ctx, o: ctx.get(o, "_mem_location")
+    reg.attr_fields.update({"memory_limit": ["_mem_limit"], "memory_location": ["_mem_location"]})
     reg.add(Contract("iface:IOutput.memory_limit", pure=True, verify=False, result_fn=lambda ctx: lim(ctx, ctx.self)))
     reg.add(Contract("iface:IOutput.memory_location", pure=True, verify=False, result_fn=lambda ctx: loc(ctx, ctx.self)))
     reg.add(Contract("iface:IOutput.memory_limit.setter", params={"value": TOpt(Int)}, verify=False,
@@ -954,6 +957,7 @@ BRANCH_BAD_CHILD = z3.Function("Branch.bad.child", IntS, BoolS, IntS)   # witnes
 def register_branching(reg):
     register_slot_flags(reg)
     register_validate_composition(reg)
+    register_composition_connect(reg)
     TG = lambda ctx, x: ctx.get(x, "_targets")
     NB = lambda x: isa("NoBranchAdapter", x)
     # BAD(x, f): below element x (reached with no-branch flag f) some element lies at or downstream of a
@@ -1029,7 +1033,7 @@ def register_branching(reg):
                    Implies(BAD(ctx.out.e, z3.BoolVal(False)), Or(some_bad_in_worklist(ctx, wl(ctx)), pending)))
 
     reg.add(Contract(
-        f"{S}._check_branching", props=["C19.3"], params={"comp": TRef("IComponent"), "out": TRef("IOutput")},
+        f"{S}._check_branching", props=["C19.3", "C05.4"], params={"comp": TRef("IComponent"), "out": TRef("IOutput")},
         requires=lambda ctx: And(ctx.out.e > 0, isa("IOutput", ctx.out.e)), axioms=bad_axioms, modifies=lambda ctx: [],
         raises={"FinamConnectError": lambda ctx: BAD(ctx.out.e, z3.BoolVal(False))},
         must_raise={"FinamConnectError": lambda ctx: BAD(ctx.out.e, z3.BoolVal(False))},
@@ -1216,7 +1220,7 @@ def register_validate_composition(reg):
     ))
 
     reg.add(Contract(
-        f"{S}.Composition._validate_composition", self_cls="Composition", props=["C19.6"], params={},
+        f"{S}.Composition._validate_composition", self_cls="Composition", props=["C19.6", "C05.4"], params={},
         requires=pre, modifies=lambda ctx: [],
         axioms=lambda ctx: [VALIDATED_OK == Not(viol(ctx))],
         raises={"FinamConnectError": viol}, must_raise={"FinamConnectError": viol}, raise_frame_empty=True,
@@ -1226,4 +1230,80 @@ def register_validate_composition(reg):
                3: dict(invariant=inv3, locals={"comp": TRef("IComponent")})},
         call_checks={},
         note="VALIDATED_OK is defined here: none of the five rules is violated by the link graph at validation time",
+    ))
+
+
+# =================================================================================================
+# Composition.connect (C10.5, C19.5): adapters inherit the composition's memory settings; validation precedes any exchange
+# =================================================================================================
+def register_composition_connect(reg):
+    from .base import RETENTION_FIELDS
+    reg.field("_is_connected", Bool)
+    reg.field("_time_frame", TTup(TimeOpt, TimeOpt))
+    lim = lambda ctx, o: ctx.get(o, "_mem_limit")
+    loc = lambda ctx, o: ctx.get(o, "_mem_location")
+
+    # helpers that are not the subject here: assumed (simple loops over the component list)
+    reg.add(Contract(f"{S}._get_start_time", params={"time_components": TList(TRef("ITimeComponent"))}, result=Time, pure=True, verify=False,
+                     raises={"ValueError": lambda ctx: z3.BoolVal(True)}, note="assumed: earliest component time"))
+    for fn in ("_map_outputs", "_map_inputs"):
+        reg.add(Contract(f"{S}.{fn}", params={"components": TList(TRef("IComponent"))}, pure=True, verify=False,
+                         result=OwnersT if fn == "_map_outputs" else TDict(TRef("IInput"), TRef("IComponent")),
+                         note="assumed: slot -> owning component"))
+    reg.add(Contract(f"{S}.Composition._collect_adapters", self_cls="Composition", params={}, verify=False,
+                     modifies=lambda ctx: [(ctx.self, "_adapters")],
+                     note="assumed: gathers the adapters linked to the listed components (bounded stand-in bnd_validate.py compares the link enumeration)"))
+
+    def exch(ctx):
+        return ctx.get(WORLD, "$exchange_started").e
+
+    def distinct_comps(ctx):
+        comps = ctx.get(ctx.self, "_components")
+        i, j = z3.Int("dc_i"), z3.Int("dc_j")
+        return And(z3.ForAll([i, j], Implies(And(0 <= i, i < j, j < comps.n), comps.at(i).e != comps.at(j).e)),
+                   z3.ForAll([i], Implies(And(0 <= i, i < comps.n), comps.at(i).e > 0)))
+
+    def validate_pre(ctx):
+        x = z3.Int("vp_x")
+        return And(slots_typed(ctx), z3.ForAll([x], Implies(CONN(x), Or(isa("IOutput", ROOT2(x)), isa("IInput", ROOT2(x)))), patterns=[ROOT2(x)]))
+
+    def viol0(ctx):
+        return topology_violation(ctx.old, ctx.self)
+
+    def adapters_configured(ctx):
+        s = ctx.self
+        ads = ctx.get(s, "_adapters")
+        a = z3.Int("ca_a")
+        slim, sloc = ctx.old.get(s, "_slot_memory_limit"), ctx.old.get(s, "_slot_memory_location")
+        # (the adapter set after _collect_adapters; limits as they were when the defaulting loop started are not visible here,
+        #  so the clause is stated on the result: nothing inheritable is left unset)
+        return z3.ForAll([a], Implies(ads.dom(a), And(Implies(Not(is_none(slim)), Not(is_none(lim(ctx, a)))),
+                                                       Implies(Not(is_none(sloc)), Not(is_none(loc(ctx, a)))))))
+
+    def inv_ads(ctx):
+        s = ctx.self
+        seq = ctx.seq
+        j = z3.Int("ia_j")
+        slim, sloc = ctx.get(s, "_slot_memory_limit"), ctx.get(s, "_slot_memory_location")
+        a = seq.at(j).e
+        return And(VALIDATED_OK, Not(exch(ctx)),
+                   z3.ForAll([j], Implies(And(0 <= j, j < ctx.k), And(Implies(Not(is_none(slim)), Not(is_none(lim(ctx, a)))),
+                                                                      Implies(Not(is_none(sloc)), Not(is_none(loc(ctx, a))))))))
+
+    reg.add(Contract(
+        f"{S}.Composition.connect", self_cls="Composition", props=["C10.5", "C19.5"], params={"start_time": TimeOpt},
+        requires=lambda ctx: And(Not(exch(ctx)), validate_pre(ctx), distinct_comps(ctx), comps_in_status(ctx, ("INITIALIZED",))),
+        modifies=lambda ctx: [(None, f) for f in ["$status", "$inputs", "$outputs", "_mem_limit", "_mem_location", "$ctime", "$next_time", "_time",
+                                                  "_source", "_targets", "_output_info", "_input_info", "_out_infos_exchanged", "_in_info_exchanged",
+                                                  "_adapters", "_output_owners", "_input_owners", "_is_connected", "_time_frame"] + RETENTION_FIELDS]
+        + [(WORLD, "$pull_log"), (WORLD, "$notify_log"), (WORLD, "$exchange_started"), (WORLD, "$progress")],
+        raises={"FinamStatusError": lambda ctx: z3.BoolVal(True), "ValueError": lambda ctx: z3.BoolVal(True),
+                # a rejected topology is reported before any component exchanged infos or data
+                "FinamConnectError": lambda ctx: Implies(viol0(ctx), Not(exch(ctx))),
+                "FinamCircularCouplingError": lambda ctx: Not(viol0(ctx))},
+        ensures=lambda ctx, r: {"accepted topology": Not(viol0(ctx))},
+        # C10.5 is stated where it matters: when the defaulting loop is done (before the first exchange), every collected adapter
+        # has inherited the composition's memory limit and location
+        loops={1: dict(invariant=inv_ads, at_exit=adapters_configured),
+               2: dict(invariant=lambda ctx: And(distinct_comps(ctx), comps_in_status_from(ctx, ctx.k, ("CONNECTED",))))},
     ))
